@@ -13,6 +13,7 @@ import Driver.Misc
 import Driver.Conform
 import Driver.ConformRec
 import Driver.ConformRecovery
+import Driver.ConformConn
 open OAP Driver
 
 def badOp (line : String) : String := s!"bad-op {line}"
@@ -47,7 +48,7 @@ def dispatch (op : String) (a : Args) : Option String :=
   | "hs.unpack" => opHsUnpack a
   | "hs.ctx" => opHsCtx a
   | "proto.get" => opProtoGet a
-  | _ => ((Driver.metaOps ++ Driver.frameOps ++ Driver.streamOps ++ Driver.gzOps ++ Driver.miscOps ++ Driver.reqOps ++ Driver.conformOps ++ Driver.conformRecOps ++ Driver.conformRecoveryOps).find? (·.1 == op)).bind (fun f => f.2 a)
+  | _ => ((Driver.metaOps ++ Driver.frameOps ++ Driver.streamOps ++ Driver.gzOps ++ Driver.miscOps ++ Driver.reqOps ++ Driver.conformOps ++ Driver.conformRecOps ++ Driver.conformRecoveryOps ++ Driver.conformConnOps).find? (·.1 == op)).bind (fun f => f.2 a)
 
 /-- per-connection streaming state kept across lines (C11 histories): context id ↦ (parked header, ring) -/
 abbrev DState := List (Nat × (Option Header × Ring))
